@@ -476,6 +476,9 @@ def run(tier, seed):
                                  ['Safety', 'Limit', 'AcceptedMeansWaitBegin'], 'c06', params, 'random real=%s creds=%s' % (real, creds),
                                  nproc=6)
     chk.sample({'recorded': [a for a, s in batch[0]][:6]})
+    # several connections of one user sharing the keyring: cookie ids, lookups, deletion, expiry
+    from . import cookiejar
+    cookiejar.stage(chk, rng, thorough)
     # canary: a REJECTED recorded as OK
     params = {'real': False, 'creds': False}
     drv = AuthServerDriver(False, False)
